@@ -1,28 +1,64 @@
-"""Models extracted from the source by abstract interpretation (sa.absint) and shared by several properties:
-the SGR writer (Chunk.color_str), the SGR reader table (escseqparse.token_type), the from_str fold and parse_args.
+"""Models extracted from the source by abstract interpretation (sa.objinterp) and shared by several properties:
+the SGR writer (Chunk.color_str), the SGR reader (escseqparse.token_type), FmtStr.from_str with a given token list,
+and parse_args.  All are evaluated structure-independently: whatever helper functions, tables or loops the code uses,
+the function is interpreted on the domain element and only its outcome is looked at.
 """
 import ast
 
 from . import sgr
-from .absint import BlockEval, Interp, FoldedRaise
-from .consteval import Folder, Record, SymStr, TOP, Unknown
+from .absint import FoldedRaise
+from .consteval import EscText, PlainText, SymStr, TOP, Unknown
+from .objinterp import Obj, ObjInterp
 from .report import AnalysisError
-from .srcmodel import unparse
 
-T = SymStr(sgr.TEXT)
+T = PlainText(sgr.TEXT)
+T2 = PlainText("U")
+
+
+def runs_of(obj):
+    """[(text, attribute dict)] of a FmtStr model value."""
+    if not (isinstance(obj, Obj) and obj.cls == "FmtStr"):
+        raise AnalysisError("expected a FmtStr model value, got %r" % (obj,))
+    out = []
+    for c in obj.fields.get("chunks", []):
+        a = c.fields.get("_atts")
+        out.append((c.fields.get("_s"), dict(a.payload) if isinstance(a, Obj) and a.payload is not None else dict(a or {})))
+    return out
+
+
+import re as _re
+_UNIT = _re.compile("\ue000.\ue001|.", _re.S)
+
+
+def cells(runs):
+    """Per-character view of a run list: [(unit, attributes that are on)] where a unit is a symbolic-text marker or a
+    literal character.  Two run lists with the same cells display the same (run boundaries and False/absent values do
+    not matter)."""
+    out = []
+    for t, a in runs:
+        eff = tuple(sorted((k, v) for k, v in a.items() if v))
+        for u in _UNIT.findall(str(t)):
+            out.append((u, eff))
+    return out
+
+
+def mk_fmtstr(it, *runs):
+    chunks = [it.new("formatstring", "Chunk", t, dict(a)) for t, a in runs]
+    return it.new("formatstring", "FmtStr", *chunks)
 
 
 class Writer:
-    def __init__(self, src, fold):
-        self.src, self.fold = src, fold
+    def __init__(self, src, it):
+        self.src, self.it = src, it
         self.f = src.func("formatstring", "Chunk.color_str")
-        self.env0 = dict(fold.module("formatstring"))
-        self.be = BlockEval(fold, max_states=64)
+        self.text = SymStr(sgr.TEXT)      # fully symbolic: ANY inspection of the text is an unknown atom
 
     def outcomes(self, atts):
-        env = dict(self.env0)
-        env["self"] = Record(_s=T, s=T, _atts=dict(atts), atts=dict(atts))
-        return self.be.run_function(self.f.node, env)
+        chunk = self.it.new("formatstring", "Chunk", self.text, dict(atts))
+        try:
+            return self.it.call("formatstring", "Chunk.color_str", chunk)
+        except Unknown as e:
+            raise AnalysisError("Chunk.color_str outside the evaluated subset: %s" % e)
 
     def stream(self, atts):
         """The single stream for an attribute set, or None when the model is not deterministic/closed."""
@@ -34,131 +70,59 @@ class Writer:
 
 
 class Reader:
-    """code list -> list of update dicts, or ('raise', Exc) - the extracted table of token_type's `m` branch."""
+    """command + parameter list -> ('ok', updates | None) | ('raise', Exc) | ('opaque', why): token_type interpreted."""
 
-    def __init__(self, src, fold):
-        self.src, self.fold = src, fold
+    def __init__(self, src, it):
+        self.src, self.it = src, it
         self.f = src.func("escseqparse", "token_type")
-        self.env0 = dict(fold.module("escseqparse"))
-        self.it = Interp(fold, classes=(), max_states=64)
         self.memo = {}
+
+    def token_dict(self, tok):
+        key = repr(sorted(tok.items(), key=lambda kv: kv[0]))
+        if key in self.memo:
+            return self.memo[key]
+        r = self.it.call1("escseqparse", "token_type", dict(tok))
+        self.memo[key] = r
+        return r
 
     def token(self, command, nums):
-        key = (command, tuple(nums))
-        if key in self.memo:
-            return self.memo[key]
-        env = dict(self.env0)
-        params = self.f.params()
-        if len(params) != 1:
-            raise AnalysisError("token_type takes %d parameters" % len(params))
-        env[params[0]] = {"command": command, "numbers": list(nums), "csi": "\x1b[", "intermed": "", "private": "",
-                          "seq": "\x1b[%s%s" % (";".join(map(str, nums)), command)}
-        outs = self.it.run_function(self.f.node, env)
-        if len(outs) != 1 or outs[0].assumptions or outs[0].opaque:
-            r = ("opaque", str(outs[:2]))
-        elif outs[0].term == "raise":
-            r = ("raise", outs[0].value)
-        else:
-            r = ("ok", outs[0].value)
-        self.memo[key] = r
-        return r
+        tok = {"command": command, "numbers": list(nums) if not isinstance(nums, str) else nums, "csi": "\x1b[", "intermed": "",
+               "private": "", "seq": "\x1b[%s%s" % (";".join(map(str, nums)) if not isinstance(nums, str) else nums, command)}
+        return self.token_dict(tok)
 
 
-class FromStrFold:
-    """Transition function of the token loop of FmtStr.from_str: (running format, token) -> (running format, emitted run)."""
+class FromStr:
+    """FmtStr.from_str interpreted with parse() stubbed to return a given token list (the input text is symbolic text
+    that contains ESC[, so the parsing path is taken)."""
 
-    def __init__(self, src, fold):
-        self.src, self.fold = src, fold
+    def __init__(self, src, it):
+        self.src, self.it = src, it
         self.f = src.func("formatstring", "FmtStr.from_str")
-        self.env0 = dict(fold.module("formatstring"))
-        self.it = Interp(fold, classes=("Chunk", "FmtStr"), max_states=64)
-        loops = [n for n in ast.walk(self.f.node) if isinstance(n, ast.For)]
-        if len(loops) != 1:
-            raise AnalysisError("FmtStr.from_str: expected exactly one for loop, found %d" % len(loops))
-        self.loop = loops[0]
-        if not isinstance(self.loop.target, ast.Name):
-            raise AnalysisError("from_str loop target is not a plain name")
-        self.var = self.loop.target.id
-        m = self.f.module
-        block = None
-        parent = m.parent.get(self.loop)
-        for fld in ("body", "orelse", "finalbody"):
-            b = getattr(parent, fld, None)
-            if isinstance(b, list) and self.loop in b:
-                block = b
-        if block is None:
-            raise AnalysisError("cannot locate the block of the from_str loop")
-        self.pre = block[:block.index(self.loop)]
-        self.post = block[block.index(self.loop) + 1:]
-        # the iterable is the name bound from parse(s)
-        self.iter_name = unparse(self.loop.iter)
-        # locals initialised before the loop
-        outs = []
-        falls = self.it._block(self.pre, [(dict(self.env0), [], [])], outs)
-        if len(falls) != 1 or outs:
-            raise AnalysisError("statements before the from_str loop are not straight-line initialisations")
-        self.init_env = falls[0][0]
-        self.locals = [k for k in self.init_env if k not in self.env0]
-        self.dicts = [k for k in self.locals if isinstance(self.init_env[k], dict)]
-        self.lists = [k for k in self.locals if isinstance(self.init_env[k], list)]
-        if len(self.dicts) != 1 or len(self.lists) != 1:
-            raise AnalysisError("from_str loop state is not (one running dict, one run list): %s" % self.locals)
-        if self.init_env[self.dicts[0]] or self.init_env[self.lists[0]]:
-            raise AnalysisError("from_str loop state does not start empty")
         self.memo = {}
+        self.fallback_marker = PlainText("R")
 
-    def step(self, fmt, tok):
-        """fmt: dict; tok: dict (update) or str/SymStr (text).  Returns ('ok', new_fmt, [emitted runs]) | ('raise', E) | ('opaque', why)"""
-        key = (tuple(sorted(fmt.items(), key=repr)), tuple(sorted(tok.items(), key=repr)) if isinstance(tok, dict) else ("text", str(tok)))
+    def run(self, tokens, parse_raises=None):
+        key = repr([(sorted(t.items(), key=repr) if isinstance(t, dict) else ("text", str(t))) for t in tokens]) + repr(parse_raises)
         if key in self.memo:
             return self.memo[key]
-        env = dict(self.init_env)
-        env[self.dicts[0]] = dict(fmt)
-        env[self.lists[0]] = []
-        env[self.var] = tok
-        outs = []
-        falls = self.it._block(self.loop.body, [(env, [], [])], outs)
-        for o in outs:
-            if o.term == "continue":
-                falls.append((o.env, o.assumptions, o.effects))
-        others = [o for o in outs if o.term != "continue"]
-        if others:
-            o = others[0]
-            r = ("raise", o.value) if o.term == "raise" else ("opaque", "loop body ends with %s" % o.term)
-        elif len(falls) != 1 or falls[0][1] or any(e[0].startswith("opaque") or e[0] == "call" for e in falls[0][2]):
-            r = ("opaque", "loop body is not deterministic/closed for token %r: %s" % (tok, falls[:2]))
-        else:
-            e2 = falls[0][0]
-            nf, runs = e2[self.dicts[0]], e2[self.lists[0]]
-            if nf is TOP or runs is TOP:
-                r = ("opaque", "loop state became unknown")
-            else:
-                r = ("ok", dict(nf), list(runs))
+        fold = self.it.folder
+
+        def parse_stub(args, kw):
+            if parse_raises:
+                raise FoldedRaise(parse_raises, "parse")
+            return [dict(t) if isinstance(t, dict) else t for t in tokens]
+        fold.stubs[("escseqparse", "parse")] = parse_stub
+        fold.stubs[("escseqparse", "remove_ansi")] = lambda args, kw: self.fallback_marker
+        try:
+            r = self.it.call1("formatstring", "FmtStr.from_str", EscText("S"))
+        finally:
+            fold.stubs.pop(("escseqparse", "parse"), None)
+            fold.stubs.pop(("escseqparse", "remove_ansi"), None)
+        if r[0] == "ok":
+            r = ("ok", runs_of(r[1]))
         self.memo[key] = r
         return r
 
-    def result_is_all_runs(self):
-        """The statements after the loop return FmtStr(*<run list>)."""
-        env = dict(self.init_env)
-        marker = [("<Chunk>", "a", ()), ("<Chunk>", "b", ())]
-        env[self.lists[0]] = list(marker)
-        outs = []
-        falls = self.it._block(self.post, [(env, [], [])], outs)
-        ok = len(outs) == 1 and outs[0].term == "return" and outs[0].value == ("<FmtStr>",) + tuple(marker)
-        return ok, outs
 
-
-def parse_args_eval(it, src, fold, args, kwargs):
-    f = src.func("formatstring", "parse_args")
-    env = dict(fold.module("formatstring"))
-    ps = f.params()
-    if len(ps) != 2:
-        raise AnalysisError("parse_args takes %d parameters" % len(ps))
-    env[ps[0]] = tuple(args)
-    env[ps[1]] = dict(kwargs)
-    outs = it.run_function(f.node, env)
-    if len(outs) != 1 or outs[0].assumptions or outs[0].opaque:
-        return ("opaque", str(outs[:2]))
-    if outs[0].term == "raise":
-        return ("raise", outs[0].value)
-    return ("ok", outs[0].value)
+def parse_args_eval(it, args, kwargs):
+    return it.call1("formatstring", "parse_args", tuple(args), dict(kwargs))
